@@ -170,6 +170,12 @@ impl Default for P {
     }
 }
 
+impl From<i32> for P {
+    fn from(n: i32) -> P {
+        P { s: 3, f: 0, v: n as i8, g: G_FROM }
+    }
+}
+
 // P is Copy so that types educing Copy can contain it; the hand-written Clone still logs, which is
 // how a bitwise copy (generation unchanged, no call) is told apart from a field-wise clone.
 impl Copy for P {}
@@ -886,8 +892,8 @@ pub fn g_clone<X>(x: &X) -> X {
     // never called by the bounds corpus; a bitwise duplicate keeps the signature implementable for every X
     unsafe { std::ptr::read(x) }
 }
-pub fn g_into<X>(_: X) -> TA {
-    TA::new(3, 0, 0)
+pub fn g_into<X, const K: u8>(_: X) -> TT<K> {
+    TT::new(3, 0, 0)
 }
 
 /// `impls!(Type: Trait)` -> bool at compile time, without a compile error when the bound does not hold
